@@ -4,6 +4,8 @@
 import OptreeModel.Model.Serial
 import OptreeModel.Lemmas.EncInspect
 import OptreeModel.Lemmas.EncTransform
+import OptreeModel.Lemmas.EncConstruct
+import OptreeModel.Properties.C06
 
 namespace Optree
 
@@ -237,6 +239,62 @@ theorem C08_transform_leaf_is_compose (a b : STree) (ha : a.wf = true) (nil : Bo
 theorem C08_transform_id (a : STree) (ha : a.wf = true) (nil : Bool) (ns : String) :
     transform (a.spec nil ns) Option.none (some fun _ => .ok (STree.leaf.spec nil ns)) = .ok (a.spec nil ns) := by
   rw [C08_transform_leaf_refines a .leaf ha nil ns ns (Or.inl rfl), C08_compose_leaf_right a]
+
+/-! ### rebuilding the root from its children with the constructors -/
+
+/-- the namespace a rebuilt treespec carries: the children's (none when there are no children) -/
+def rebuiltNs (cs : List STree) (ns : String) : String := if cs.isEmpty then "" else ns
+
+/-- **`treespec_tuple / list / deque / ordereddict / namedtuple / structseq` over `children()` rebuild the
+root**: for every node of those kinds, `MakeFromCollection` applied to the collection of its child
+treespecs returns the same node array (namespace of the children) -/
+theorem C08_rebuild_from_children (cfg : Cfg) (cs : List STree) :
+    makeFromCollection cfg (.tuple (cs.map fun c => c.spec cfg.noneIsLeaf cfg.ns)) =
+      .ok ((STree.node ⟨.tuple, .none, Option.none, Option.none, Option.none⟩ cs).spec cfg.noneIsLeaf
+        (rebuiltNs cs cfg.ns)) ∧
+    makeFromCollection cfg (.list (cs.map fun c => c.spec cfg.noneIsLeaf cfg.ns)) =
+      .ok ((STree.node ⟨.list, .none, Option.none, Option.none, Option.none⟩ cs).spec cfg.noneIsLeaf
+        (rebuiltNs cs cfg.ns)) ∧
+    (∀ m, makeFromCollection cfg (.deque m (cs.map fun c => c.spec cfg.noneIsLeaf cfg.ns)) =
+      .ok ((STree.node ⟨.deque, .maxlen m, Option.none, Option.none, Option.none⟩ cs).spec cfg.noneIsLeaf
+        (rebuiltNs cs cfg.ns))) := by
+  have hv := verifyChildren_uniform cfg.noneIsLeaf cfg.ns cs
+  refine ⟨?_, ?_, ?_⟩
+  · simp only [makeFromCollection, hv]
+    rw [assemble_enc _ _ cs _ _ .tuple _ _ _ _ (by simp)]; rfl
+  · simp only [makeFromCollection, hv]
+    rw [assemble_enc _ _ cs _ _ .list _ _ _ _ (by simp)]; rfl
+  · intro m
+    simp only [makeFromCollection, hv]
+    rw [assemble_enc _ _ cs _ _ .deque _ _ _ _ (by simp)]; rfl
+
+/-- the same for an `OrderedDict` of child treespecs (keys kept in the given order) -/
+theorem C08_rebuild_ordereddict (cfg : Cfg) (ks : List Key) (cs : List STree) (hl : ks.length = cs.length) :
+    makeFromCollection cfg (.odict (ks.zip (cs.map fun c => c.spec cfg.noneIsLeaf cfg.ns))) =
+      .ok ((STree.node ⟨.ordereddict, .keys ks, Option.none, Option.none, Option.none⟩ cs).spec cfg.noneIsLeaf
+        (rebuiltNs cs cfg.ns)) := by
+  have hv := verifyChildren_uniform cfg.noneIsLeaf cfg.ns cs
+  have h1 : (ks.zip (cs.map fun c => c.spec cfg.noneIsLeaf cfg.ns)).map (·.2) =
+      cs.map fun c => c.spec cfg.noneIsLeaf cfg.ns := by
+    rw [List.map_snd_zip]; simp [hl]
+  have h2 : (ks.zip (cs.map fun c => c.spec cfg.noneIsLeaf cfg.ns)).map (·.1) = ks := by
+    rw [List.map_fst_zip]; simp [hl]
+  simp only [makeFromCollection, h1, h2, hv]
+  rw [assemble_enc _ _ cs _ _ .ordereddict _ _ _ _ (by simp)]; rfl
+
+/-- hence `treespec_tuple(spec.children()) == spec` for a tuple treespec (and likewise for the other kinds):
+equal node arrays, namespaces compatible -/
+theorem C08_rebuild_equal (cfg : Cfg) (cs : List STree) (hw : STree.wfL cs = true) :
+    let s : STree := .node ⟨.tuple, .none, Option.none, Option.none, Option.none⟩ cs
+    ∃ sp cs', children (s.spec cfg.noneIsLeaf cfg.ns) = .ok cs' ∧ makeFromCollection cfg (.tuple cs') = .ok sp ∧
+      equalTo sp (s.spec cfg.noneIsLeaf cfg.ns) = .ok true := by
+  intro s
+  have hs : s.wf = true := by simp [s, STree.wf, hw, Kind.isDict]
+  refine ⟨_, _, children_enc s _ _, (C08_rebuild_from_children cfg cs).1, ?_⟩
+  rw [equalTo_enc_true s s hs hs]
+  refine ⟨rfl, ?_, C06_shape_eq_refl s⟩
+  unfold rebuiltNs nsCompatible
+  split <;> simp
 
 /-- non-vacuity: sibling sub-trees of sizes 1, 3, 2 -/
 def C08_demo : STree :=
